@@ -296,7 +296,7 @@ func Guard[C any](check func(C) Verdict, c C) Verdict {
 	return v
 }
 
-const guardBudget = 300 * time.Second
+const guardBudget = 120 * time.Second
 
 // Shard returns (shard, nshards) from the environment.
 func Shard() (int, int) {
